@@ -68,12 +68,14 @@ func allProps() []*Prop {
 		propC01(),
 		propC03(),
 		propC10(),
+		propC11(),
 		propC13(),
 		propC14(),
 		propC15(),
 		propC16(),
 		propC17(),
 		propC18(),
+		propC20(),
 		propC02(),
 		propC04(),
 		propC05(),
@@ -571,5 +573,51 @@ func propC10() *Prop {
 			"thorough": "more Authorization lengths; lists up to 2+2",
 		},
 		Outside: []string{"full 16 symbolic bytes for IPv6 (sparse bytes only)", "ServeMux pattern matching beyond exact paths", "JSON syntax"},
+	}
+}
+
+func propC11() *Prop {
+	return &Prop{
+		ID: "C11", Title: "Runtime reconfiguration is atomic and consistent under traffic",
+		Jobs: func(tier string) []*sym.Job {
+			var js []*sym.Job
+			for k := int64(2); k <= tierPick(tier, 3, 4); k++ {
+				j := lbJob(fmt.Sprintf("C11a/model-based-histories[k=%d]", k), "VerifC11History", k)
+				j.MaxPaths = 3000000
+				js = append(js, j)
+			}
+			return js
+		},
+		Assumptions: append([]string{"operations go through the balancer's real AddBackend / RemoveBackend / SetStrategy / ListBackends / findHealthyBackend (the admin handlers' JSON layer is covered structurally by C10); reference model: a list of (name, address, weight) records", "names from {a,b,c}, weights 0..5, parsable or unparsable address, six strategy names incl. an unknown one; all backends healthy"}, commonAssumptions...),
+		Bounds: map[string]string{
+			"quick":    "every history of <= 3 operations over {add, remove, set_strategy, request}, state compared with the model after every step",
+			"thorough": "<= 4 operations",
+		},
+		Outside: []string{"operations racing traffic (2-thread atomicity is examined pairwise under C12)", "in-flight proxied requests during a change"},
+	}
+}
+
+func propC20() *Prop {
+	return &Prop{
+		ID: "C20", Title: "WebSocket tunnelling and connection-pool invariants - pool and Hijack pass-through",
+		Jobs: func(tier string) []*sym.Job {
+			var js []*sym.Job
+			for k := int64(2); k <= tierPick(tier, 4, 5); k++ {
+				j := lbJob(fmt.Sprintf("C20a/pool-histories[k=%d]", k), "VerifC20Pool", k)
+				j.MaxPaths = 3000000
+				js = append(js, j)
+			}
+			js = append(js, lbJob("C20b/hijack[balancer writer]", "VerifC20Hijack"))
+			for k := int64(1); k <= 3; k++ {
+				js = append(js, job(fmt.Sprintf("C20b/hijack[plugin wrappers, depth %d]", k), "plugins", "VerifC20PluginHijack", k))
+			}
+			return js
+		},
+		Assumptions: append([]string{"claimed for the pool (Get/Put/Close/cleanup/Shutdown on the real WebSocketPool, built directly so that the cleanup goroutine is not started) and for Hijack reaching the connection through the balancer's writer and every plugin wrapper; the tunnel's byte relay is net/http/httputil over real sockets and is not encodable", "connections are stub objects with a closed flag and a ghost holder; max_idle 0..3, any idle_timeout 1ns..2^40ns, two backends"}, commonAssumptions...),
+		Bounds: map[string]string{
+			"quick":    "every history of <= 4 operations over {put (fresh or held), get, close, time passes (any amount), cleanup, shutdown}; Hijack through wrapper stacks of depth <= 3",
+			"thorough": "<= 5 operations",
+		},
+		Outside: []string{"the WebSocket byte relay itself", "concurrent pool use (pairwise under C12)"},
 	}
 }
